@@ -1043,8 +1043,14 @@ impl<'a> Searcher<'a> {
             let buffer_key = left_expr.to_string();
             // the aggregate reads its argument from the rows: whatever the argument is (a literal
             // is not cached by itself), this row has to carry it
-            if entry.is_some() && !file_map.contains_key(&buffer_key) {
-                file_map.insert(buffer_key.clone(), argument.to_string());
+            if entry.is_some() {
+                if !file_map.contains_key(&buffer_key) {
+                    file_map.insert(buffer_key.clone(), argument.to_string());
+                }
+                // while the entries are being collected the row only has to carry the argument:
+                // the aggregate itself is computed once, over all of them, when the walk is over
+                // (computing it here for every entry made the run time quadratic)
+                return Variant::empty(VariantType::String);
             }
             let aggr_result = function::get_aggregate_value(
                 &column_expr.function,
